@@ -1,4 +1,5 @@
 import MtailVerif.Model.Formats
+import MtailVerif.Proofs.Skeletons
 /-! # C22 — Every export format reports each label set's own value
 
     The formatters are modelled as functions of the metric and the label set being emitted, as in
@@ -75,5 +76,11 @@ example :
     graphiteLines [] m ⟨[(str "k", str "b")], d2⟩ =
       [str "p.h.k.b.bin_1 0 20\n", str "p.h.k.b.bin_inf 2 20\n", str "p.h.k.b.count 2 20\n", str "p.h.k.b 5 20\n"] := by
   decide
+
+/-! ### regenerated control skeletons (written by lib/wire_skeletons.py) -/
+/-- Obligations over regenerated facts: the functions this property's model stands for have the
+    control skeleton the model was written against (`Proofs/Skeletons.lean`, one `rfl` per function
+    or clause; DESIGN.md §11.6a) -/
+theorem export_skeletons : Skeletons.ExportShape := Skeletons.export_shape
 
 end MtailVerif.C22
